@@ -101,3 +101,16 @@ Proof.
                 ltac:(lia) ltac:(lia) wit_run wit_wf ltac:(lia) Hg Hs).
   rewrite Hf in H. discriminate.
 Qed.
+
+(** the instance of the guarded statement in which nothing is lost *)
+Lemma nothing_lost_recovers :
+  forall (clen : list record -> Z), (forall x, 0 < clen x) ->
+  forall owner2 owner tgid0 sched tr k,
+    owner <> 0 -> 0 < tgid0 ->
+    run clen 0%N owner tgid0 sched = Ok tr -> wf_sched clen owner tgid0 sched = true ->
+    (k <= length tr)%nat -> guard_crash tr k = true ->
+    snd (recover clen 1%N owner2 (pl_img tr k (fun _ => false))) = StartOk.
+Proof.
+  intros clen Hpos owner2 owner tgid0 sched tr k Hown Htg Hrun Hwf Hk Hg.
+  rewrite pl_img_process_crash. eapply restart_and_queries_ok; eassumption.
+Qed.
